@@ -37,6 +37,7 @@ func zzModel() []zzFileM {
 			{kind: "typedef", name: "M", target: "y.S"},
 			{kind: "typedef", name: "N", target: "M"},
 			{kind: "typedef", name: "J", target: "x.O"},
+			{kind: "typedef", name: "F", target: "y.F"}, // re-exports an included name under the same name (typedef chain a:F -> y:F -> y:E)
 			{kind: "enum", name: "G", vals: []string{"P", "H"}},
 			{kind: "struct", name: "A"},
 			{kind: "const", name: "D", target: "i32", value: "7"},
